@@ -38,6 +38,25 @@ def _replay_in_fresh_process(prop: str, fl, has_findings: bool) -> bool:
     return fl.kind in kinds or (bool(kinds) and not has_findings)
 
 
+def _gate_candidates(group: list) -> list:
+    """Kept cases of one failure group in the order the gate tries them: the smallest case of every distinct case *shape*
+    (set of fields - a case that carries its history has more fields than one that does not) first, then the rest by size."""
+    by_size = sorted(group, key=lambda f: f.size)
+    first, rest, seen = [], [], set()
+    for f in by_size:
+        shape = tuple(sorted(f.case)) if isinstance(f.case, dict) else type(f.case).__name__
+        if shape in seen:
+            rest.append(f)
+        else:
+            seen.add(shape)
+            first.append(f)
+    return first + rest
+
+
+GATE_TRIES = 12
+GATE_TRIES_FRESH = 5
+
+
 def main() -> int:
     ap = argparse.ArgumentParser()
     ap.add_argument('prop')
@@ -98,19 +117,32 @@ def main() -> int:
     reported = 0
     unstable = 0
     for key in sorted(groups, key=lambda k: groups[k][0].size):
+        # determinism gate: a failing case must fail again when replayed alone.  A failure whose cause is an EARLIER case of
+        # the same worker (state carried inside the library) does not replay alone; the group then usually also holds the
+        # case that names that history (a pair / sequence case), so the kept cases of the group are tried smallest-first
+        # (at most GATE_TRIES) and the first one that replays is the one reported.  Only a case that did fail again on its
+        # own is ever reported as a violation.
+        confirmed = False
         fl = groups[key][0]
-        # determinism gate: the failing case must fail again, identically, when replayed alone
-        try:
-            again = mod.replay(fl.case)
-        except BaseException:
-            traceback.print_exc()
-            again = None
-        # (the same case may show a different symptom when it runs alone, e.g. the first call of a process behaves differently
-        # from later ones: any failure of the replayed case that no listed finding covers confirms the violation)
-        fresh = [a for a in (again or []) if not any(core.finding_matches(fd, a) for fd in findings)]
-        confirmed = bool(again) and (any(a.kind == fl.kind for a in again) or bool(fresh))
+        for cand in _gate_candidates(groups[key])[:GATE_TRIES]:
+            try:
+                again = mod.replay(cand.case)
+            except BaseException:
+                traceback.print_exc()
+                again = None
+            # (the same case may show a different symptom when it runs alone, e.g. the first call of a process behaves
+            # differently from later ones: any failure of the replayed case that no listed finding covers confirms it)
+            fresh = [a for a in (again or []) if not any(core.finding_matches(fd, a) for fd in findings)]
+            if bool(again) and (any(a.kind == cand.kind for a in again) or bool(fresh)):
+                confirmed, fl = True, cand
+                break
         if not confirmed:
-            confirmed = _replay_in_fresh_process(prop, fl, bool(findings))
+            # the replays above ran in THIS process, one after the other, so state kept inside the library by one of them can
+            # mask the next: the same candidates (fewer) once more, each in an interpreter of its own
+            for cand in _gate_candidates(groups[key])[:GATE_TRIES_FRESH]:
+                if _replay_in_fresh_process(prop, cand, bool(findings)):
+                    confirmed, fl = True, cand
+                    break
         if not confirmed:
             print(f'NONDETERMINISM property={prop} kind={fl.kind}: the recorded case did not fail again on replay '
                   f'(case={core.jdump(fl.case)[:300]})', flush=True)
